@@ -73,7 +73,7 @@ var ErrDead = errors.New("store process died")
 
 func storeprocPath() string {
 	if b := os.Getenv("VERIF_BUILD"); b != "" {
-		return filepath.Join(b, "storeproc")
+		return filepath.Join(b, "storeproc"+os.Getenv("VERIF_BIN_TAG"))
 	}
 	return "/verif/.build/storeproc"
 }
